@@ -1034,6 +1034,8 @@ class Explorer:
                 if len(funcs) == 1 and funcs[0] not in self._stack and funcs[0] is not fi and self.inline(fi, c, funcs[0]):
                     targets = funcs[0]
             csub = self.subst(c, self._in_comprehension(c, st, fi, depth))
+            if targets is not None and self._stipulated(c, csub):
+                targets = None  # the rule fixes this call's value (environment / oracle): it is not explored
             if isinstance(c.func, ast.Attribute) and isinstance(c.func.value, ast.Name) and c.func.attr in ("append", "extend") and len(c.args) == 1 and not c.keywords and not self._comp_of.get(id(c)):
                 cur = st.store.get(c.func.value.id)
                 if isinstance(cur, ast.List) and not any(isinstance(x, ast.Starred) for x in cur.elts):
@@ -1138,6 +1140,17 @@ class Explorer:
                 yield from self._calls_from(rest, 0, s2, fi, depth, k, then)
             return
         yield from then(st)
+
+    def _stipulated(self, c: ast.Call, csub: ast.AST) -> bool:
+        fn = (c.func.attr if isinstance(c.func, ast.Attribute) else (dotted(c.func) or "")) + "()"
+        if fn in self.env or unparse(c) in self.facts or unparse(csub) in self.facts:
+            return True
+        if self.oracle is not None:
+            try:
+                return self.oracle(csub) is not None or self.oracle(c) is not None
+            except Exception:  # noqa: BLE001
+                return False
+        return False
 
     def _bindable(self, call: ast.Call, callee: FuncInfo) -> bool:
         a = callee.node.args
@@ -1742,9 +1755,25 @@ def inline_private_helpers(prog: Program, public: set | None = None):
     public = public or set()
 
     def pol(caller: FuncInfo, call: ast.Call, callee: FuncInfo) -> bool:
-        return callee.module is caller.module and callee.name not in public and not callee.is_property
+        if callee.name in public or callee.is_property:
+            return False
+        return callee.module is caller.module or _small_shared_helper(callee)
 
     return pol
+
+
+def _small_shared_helper(callee: FuncInfo) -> bool:
+    """a short loop-free module-level function of another module of the package (a check / report helper that
+    several modules share, e.g. after a move into a utilities module) is looked through like a local helper"""
+    if callee.cls is not None or callee.parent is not None:
+        return False
+    body = [st for st in callee.node.body if not (isinstance(st, ast.Expr) and isinstance(st.value, ast.Constant))]
+    if len(body) > 6:
+        return False
+    for x in ast.walk(callee.node):
+        if isinstance(x, (ast.For, ast.While, ast.Yield, ast.YieldFrom, ast.With, ast.Try, ast.FunctionDef, ast.Lambda)) and x is not callee.node:
+            return False
+    return True
 
 
 def mentions(expr: ast.AST | None, pred) -> bool:
